@@ -166,7 +166,7 @@ func judgeQuery(c QueryCase, res model.Result, r Res, excuse excuseFn) (o ev.Out
 	if c.Mode == "csv" {
 		got, err = ParseCSVOut(r.Stdout, kindOfCols(res))
 	} else {
-		got, err = ParseJSONOut(r.Stdout)
+		got, err = ParseJSONOutT(r.Stdout)
 	}
 	if err != nil {
 		return ev.Fail("%v\n  query: %s", err, c.Q.SQL())
@@ -190,18 +190,20 @@ func judgeQuery(c QueryCase, res model.Result, r Res, excuse excuseFn) (o ev.Out
 		}
 	}
 	o.Classes = append(o.Classes, "mode_"+c.Mode, "format_"+t.Format)
+	o.Classes = append(o.Classes, timeClasses(c.Tables, c.Q)...)
 	return o
 }
 
 func TestC01(t *testing.T) {
 	r := ev.New("C01", "exploration",
 		"typed grammar queries (WHERE, projections with depth<=3 expressions over + - * / neg abs floor ceil len upper lower replace substr concat, comparisons, AND/OR/NOT, IS [NOT] NULL, IN/NOT IN, LIKE, COALESCE, NULL literal; DISTINCT; ORDER BY asc/desc 1-2 keys; LIMIT; subquery in FROM; WITH) "+
-			"over one generated CSV or JSON table (1-4 columns Int/Float/String/Boolean, NULL-heavy, duplicate-heavy, 1..10 rows, occasionally 63..200), run through the real binary with -o json (80%) or -o csv, optimised (default) or --optimize=false (15%); "+
-			"oracle = independent reference evaluator; multiset comparison, ORDER BY key sequence, LIMIT count + sub-multiset. non-trivial: query has an operator beyond SELECT *, table has >=2 rows and (a NULL cell, duplicate rows, or a filter that kept some and dropped some rows). distinct = (SQL, file content, mode)",
+			"over one generated CSV or JSON table (1-4 columns Int/Float/String/Boolean, NULL-heavy, duplicate-heavy, 1..10 rows, occasionally 63..200; "+
+			"CSV tables carry a Time column in about a third of the cases (RFC3339 cells from a small pool of instants incl. pre-1970 and year 2262, each written in one of the spellings Z/+02:00/-04:00/+05:30/-00:00/+00:00, so one instant under several spellings is frequent); time expressions are column references and COALESCE, compared with = != < <= > >=, tested with IS [NOT] NULL, projected, DISTINCT-ed and used as ORDER BY keys), run through the real binary with -o json (80%) or -o csv, optimised (default) or --optimize=false (15%); "+
+			"oracle = independent reference evaluator (a Time is an instant: two spellings of one instant are equal, one DISTINCT row, tie under ORDER BY; printed times are parsed and compared as instants); multiset comparison, ORDER BY key sequence, LIMIT count + sub-multiset. non-trivial: query has an operator beyond SELECT *, table has >=2 rows and (a NULL cell, duplicate rows, or a filter that kept some and dropped some rows). distinct = (SQL, file content, mode)",
 		"NaN/-0.0 never occur (C09); strings are ASCII (C12 owns multibyte and pattern behaviour); nested LIMIT always comes with ORDER BY over all output columns so the kept multiset is determined",
 		"JSON tables have no Int columns (JSON numbers are read as Float); CSV strings start with x/y/z so they cannot be re-inferred as another kind; the first row has no NULL so every column's kind is inferable")
 	ev.Check(t, r, "query_vs_model", ev.N(8000, 150000), func(t *rapid.T) QueryCase {
-		tbl := gen.Table(t, gen.TableOpts{Name: "tab", MinRows: 1})
+		tbl := gen.Table(t, gen.TableOpts{Name: "tab", MinRows: 1, Time: true})
 		q := gen.Single(t, tbl, gen.QOpts{Depth: 2, ExprDepth: 3}, "q")
 		mode := "json"
 		if rapid.IntRange(0, 4).Draw(t, "mode") == 0 {
